@@ -560,7 +560,12 @@ func (cs *Contracts) parseFile(path string, pkgPath string) error {
 			}
 		case "nopanic":
 			if cur != nil {
-				cur.NoPanic = true
+				if strings.TrimSpace(r.text) == "explicit" {
+					// only explicit panic(...) statements must be unreachable (no index/division obligations)
+					cur.Opts["explicitpanic"] = "on"
+				} else {
+					cur.NoPanic = true
+				}
 			}
 		case "assumed":
 			if cur != nil {
